@@ -21,3 +21,4 @@ import AITB.Props.C03Prom
 import AITB.Props.C03GapMin
 import AITB.Props.C03GapMinLb
 import AITB.Props.C03Prom2
+import AITB.Props.C03GapMinUb
